@@ -146,23 +146,27 @@ def gen_len(rng, thorough):
 
 # ------------------------------------------------------------------------------------------ exact definitions
 def mdd_def(xs):
-    """largest relative decline from any point to any later point (pairs, O(n^2)) for short series, running peak otherwise"""
+    """largest relative decline from any point to any later point, exact.  Up to 60 points: all pairs i <= j.  Longer: for each i the
+    lowest later value (suffix minimum; floats order exactly like their rational values), which is the same maximum for positive x_i."""
     fx = [Fraction(v) for v in xs]
+    n = len(fx)
     best, bi, bj = Fraction(0), 0, 0
-    if len(fx) <= 400:
-        for i, a in enumerate(fx):
-            lo = min(fx[i:])
-            d = (a - lo) / a
-            if d > best:
-                best, bi, bj = d, i, fx.index(lo, i)
+    if n <= 60:
+        for i in range(n):
+            for j in range(i, n):
+                d = (fx[i] - fx[j]) / fx[i]
+                if d > best:
+                    best, bi, bj = d, i, j
         return best, bi, bj
-    peak, pi = fx[0], 0
-    for j, v in enumerate(fx):
-        if v > peak:
-            peak, pi = v, j
-        d = (peak - v) / peak
-        if d > best:
-            best, bi, bj = d, pi, j
+    suf = [0] * n
+    for i in range(n - 1, -1, -1):
+        suf[i] = i if i == n - 1 or xs[i] <= xs[suf[i + 1]] else suf[i + 1]
+    for i in range(n):
+        j = suf[i]
+        if xs[j] < xs[i]:
+            d = (fx[i] - fx[j]) / fx[i]
+            if d > best:
+                best, bi, bj = d, i, j
     return best, bi, bj
 
 
@@ -179,16 +183,31 @@ def abs_decl_pair(xs):
     return bi, bj
 
 
+_MEMO = {}
+
+
+def _memo(key, f):
+    if key not in _MEMO:
+        if len(_MEMO) > 64:
+            _MEMO.clear()
+        _MEMO[key] = f()
+    return _MEMO[key]
+
+
 def svar(fr):
-    n = len(fr)
-    m = sum(fr) / n
-    return sum((v - m) ** 2 for v in fr) / (n - 1)
+    def go():
+        n = len(fr)
+        m = sum(fr) / n
+        return sum((v - m) ** 2 for v in fr) / (n - 1)
+    return _memo(("var", tuple(fr)), go)
 
 
 def scov(a, b):
-    n = len(a)
-    ma, mb = sum(a) / n, sum(b) / n
-    return sum((x - ma) * (y - mb) for x, y in zip(a, b)) / (n - 1)
+    def go():
+        n = len(a)
+        ma, mb = sum(a) / n, sum(b) / n
+        return sum((x - ma) * (y - mb) for x, y in zip(a, b)) / (n - 1)
+    return _memo(("cov", tuple(a), tuple(b)), go)
 
 
 def fsqrt(q: Fraction) -> float:
@@ -289,9 +308,9 @@ def check_mdd(ctx, case, batch):
                 ctx.count("mdd_argmax_rounding_ties")
             else:
                 ctx.disagree(f"mdd indices: impl {hl} model {(ans['high'], ans['low'])}", case)
-        if positive and (Fraction(ans["spec"]) != Fraction(code.get("value", "0")) or Fraction(ans["peak"]) != Fraction(ans["spec"])):
+        if positive and "spec" in ans and (Fraction(ans["spec"]) != Fraction(code.get("value", "0")) or Fraction(ans["peak"]) != Fraction(ans["spec"])):
             ctx.disagree(f"model: mddCode {code} spec {ans['spec']} peak-form {ans['peak']} differ", case)
-    batch.add({"fn": "mdd", "xs": [fs(v) for v in xs]}, handler)
+    batch.add({"fn": "mdd", "xs": [fs(v) for v in xs], "spec": len(xs) <= 100}, handler)
 
 
 def check_returns(ctx, case, batch):
@@ -641,7 +660,7 @@ def random_cases(ctx):
         out.append({"fn": "returns", "xs": [repr(v) for v in xs], "d": repr(float(d)), "shape": shape, "dk": f"{name}/{dk}"})
     for _ in range(ctx.scale(220, 5000)):
         shape = rng.choice(["walk", "walk", "rising", "falling", "vshape", "constant", "grid", "ints"])
-        n = min(gen_len(rng, ctx.thorough), 300 if ctx.thorough else 120)
+        n = min(gen_len(rng, ctx.thorough), 300 if ctx.thorough else 60)
         name, sec = rng.choice(INTERVALS)
         daily = sec >= 86400
         sigma = 0.02 * math.sqrt(sec / 86400) * rng.choice([0.3, 1, 3])
@@ -653,7 +672,7 @@ def random_cases(ctx):
                     "rf": repr(rng.choice([0.0, 0.03, 0.05])), "shape": shape})
     for _ in range(ctx.scale(160, 4000)):
         shape = rng.choice(["walk", "walk", "rising", "falling", "vshape", "latepeak"])
-        n = min(gen_len(rng, ctx.thorough), 200 if ctx.thorough else 80)
+        n = min(gen_len(rng, ctx.thorough), 200 if ctx.thorough else 50)
         name, sec = rng.choice(INTERVALS)
         sigma = 0.02 * math.sqrt(sec / 86400) * rng.choice([0.3, 1, 3])
         xs = gen_series(rng, shape if shape != "latepeak" or sec >= 86400 else "walk", n, sigma)
